@@ -45,6 +45,7 @@ PROPS = {
         "kind": "c10,std",
         "module": "Props.C10",
         "namespace": "Jl.C10",
+        "extra_theorem_files": [("Proofs.CastTyped", "Jl.CastTyped")],
         "rule": ("19 casters + cast.To with each of the 18 sample types (and an unsupported one) x a universe of ~140 source values of "
                  "~60 dynamic types: nil, the 19 supported types with several values each (boundary numbers, look-alike strings, byte "
                  "slices of sizes 0/1/2/4/8, times incl. years < 0 and > 9999), named variants, typed nils, pointers, structs, maps, "
@@ -83,5 +84,53 @@ PROPS = {
         "trusted_base": [KERNEL, EXTRACT, CORR, "lean/Model/IntText.lean (port of strconv integer text, validated against strconv)",
                          "strconv.FormatFloat/ParseFloat: NOT modelled — parameter Ext with the round-trip law as explicit hypothesis (FloatLaw); the law itself is exercised on every float case by the harness"],
         "assumptions": ["FloatLaw: strconv.ParseFloat(strconv.FormatFloat(x,'f',-1,bits),bits) == x for finite x (documented strconv behaviour)"],
+    },
+    "C01": {
+        "kind": "c01,std",
+        "module": "Props.C01",
+        "namespace": "Jl.C01",
+        "rule": ("one input line through importer (template ti) and exporter (template to) as jl does, and Go values handed to Export "
+                 "through the API (maps, slices, rows): random templates (0-5 columns, 9 formats x 18 raw types, hidden anywhere, "
+                 "sub-rows to depth 3) with keys from every class the writer treats differently (controls, quotes, backslash, DEL, C1, "
+                 "U+2028/2029, BOM, U+FFFD, non-characters, astral incl. unassigned, invalid UTF-8; thorough: every code point "
+                 "U+0000-U+FFFF as a key), values of every JSON type and number spelling, raw Go values incl. NaN/Inf, invalid "
+                 "json.Number, times outside years 0-9999, nested rows and cells. The bytes received by the writer (and the number of "
+                 "Write calls) are compared with the model and judged: exactly one write, one valid JSON object (the reader's "
+                 "recogniser), newline-terminated, no inner newline; zero bytes on error. distinct = distinct (templates, input); "
+                 "non-trivial = explicitly constructed key/value classes and all API-built values"),
+        "trusted_base": [KERNEL, EXTRACT, CORR,
+                         "lean/Model/RowPrint.lean, Value.lean, Template.lean (hand-written from row.go/value.go/exporter.go; tied by byte-exact correspondence)",
+                         "lean/Model/JsonWrite.lean, JsonRead.lean (ports of encoding/json's string encoder and of the decoder the reader uses; validated against encoding/json)",
+                         "json.Marshal of floats and of Go values outside the Dyn universe: parameters (Ext.jsonFloat), not modelled"],
+        "assumptions": ["the validity oracle is the model of jsonline's own reader (Json.accepts); C16 relates it to the RFC 8259 grammar",
+                        "Go map iteration order: API-built maps carry at most one undeclared key"],
+    },
+    "C03": {
+        "kind": "c03",
+        "module": "Props.C03",
+        "namespace": "Jl.C03",
+        "rule": ("templates with 0-6 columns in non-alphabetical order (names incl. '', 'é', 'a.b'), hidden anywhere, sub-rows to depth 3; "
+                 "input and output template share names and structure as jl builds them; inputs: every permutation of the declared keys "
+                 "(<= 4 keys; thorough 5), missing keys, extra keys, objects/arrays with >= 2 members in non-alphabetical order under "
+                 "declared and undeclared keys. The member order of every object of the emitted line is judged by "
+                 "LineSpec.orderViolation (visible columns in declaration order, then undeclared keys in first-appearance order; nested "
+                 "objects keep the input's shape; declared sub-rows follow the same rule). distinct = distinct (templates, input)"),
+        "trusted_base": [KERNEL, CORR, "lean/Model/Template.lean, Value.lean, Row.lean, RowPrint.lean (hand-written; byte-exact correspondence)",
+                         "lean/Model/LineSpec.lean: the statement of the rule (specification)"],
+        "assumptions": ["input objects have unique member names (the property's domain)",
+                        "input and output templates declare the same names (as every jl definition does)"],
+    },
+    "C04": {
+        "kind": "c04",
+        "module": "Props.C04",
+        "namespace": "Jl.C04",
+        "rule": ("9 output formats x (18 raw types + none) x 9 x 19 input descriptors (sampled) x ~85 JSON values (null, booleans, numbers "
+                 "of every spelling and magnitude incl. 1e400, 30 digits, timestamps around years 0, 1970, 9999, 10000, +-2^63; strings "
+                 "incl. numeric / boolean / base64 / date / date-time look-alikes and near-misses; arrays; objects), at top level and inside a "
+                 "declared sub-row. The lexical class of each declared member of the emitted line is judged by LineSpec.classViolation; "
+                 "rejected lines must write nothing. distinct = distinct (templates, input)"),
+        "trusted_base": [KERNEL, EXTRACT, CORR, "lean/Model/Value.lean (Import/Export dispatch, hand-written), lean/Model/Cast.lean (interpreter of regenerated tables)",
+                         "lean/Model/LineSpec.lean: the lexical classes (specification)"],
+        "assumptions": ["float spellings come from strconv/encoding/json (Ext)"],
     },
 }
